@@ -42,7 +42,7 @@ KINDS = ['new', 'update', 'multi', 'big', 'undo', 'restore', 'delete', 'blob', '
 
 
 def shards(tier, seed):
-    return split(tier, seed, 480, 4800, 45, 900)
+    return split(tier, seed, 1600, 48000, 45, 900)
 
 
 def blob_listing(bd):
